@@ -69,13 +69,13 @@ def kind_alphabet(j):
     return K
 
 
-def build_case_image(j, entries, nested, xattrs):
-    """entries: list of (name, kind index, type override)"""
+def build_case_image(j, entries, nested, xattrs, ext=False):
+    """entries: list of (name, kind index, type override); ext: every inode in its extended representation, with an xattr"""
     K = kind_alphabet(j)
     ents = []
     for name, ki, tov in entries:
         n = K[ki][1]()
-        if xattrs and n.kind in ("file", "dir"):
+        if (xattrs and n.kind in ("file", "dir")) or ext:
             n.xattrs = {b"user.hostile": b"1"}
             n.ext = True
         ents.append((name, n, tov))
@@ -94,7 +94,7 @@ def evaluate(case):
         make_jail(j)
         names = name_alphabet(j)
         ents = [(names[ni], ki, tov) for (ni, ki, tov) in case["entries"]]
-        img = build_case_image(j, ents, case["nested"], "-X" in case["opts"])
+        img = build_case_image(j, ents, case["nested"], "-X" in case["opts"], case.get("ext", False))
         ip = os.path.join(j, "hostile.sqfs")
         open(ip, "wb").write(img)
         os.utime(ip, (1111111111, 1111111111))
@@ -106,7 +106,7 @@ def evaluate(case):
         r = run_tool_hangcheck(argv, cwd=j, timeout=20)
         after = snapshot(j)
         K = kind_alphabet(j)
-        label = "listing %s%s, options %s, unpack path %s, R %s" % (
+        label = ("extended inodes, " if case.get("ext") else "") + "listing %s%s, options %s, unpack path %s, R %s" % (
             [(names[ni].decode("latin1").replace(j, "<J>"), K[ki][0], tov) for ni, ki, tov in case["entries"]], " (nested in /sub)" if case["nested"] else "",
             case["opts"], case["upath"], "pre-existing" if case["preexist"] else "absent")
 
@@ -166,13 +166,14 @@ def gen_cases(tier):
     optsets = OPTSETS_Q if quick else OPTSETS_T
     cases = []
 
-    def add(entries, nested=False, opts=None, upath="/", preexist=False):
+    def add(entries, nested=False, opts=None, upath="/", preexist=False, ext=False):
         for o in (opts if opts is not None else optsets):
-            cases.append(dict(entries=entries, nested=nested, opts=o, upath=upath, preexist=preexist))
-    # all 1-entry listings
+            cases.append(dict(entries=entries, nested=nested, opts=o, upath=upath, preexist=preexist, ext=ext))
+    # all 1-entry listings, basic and extended inode representation
     for ni in range(nn):
         for ki in range(nk):
             add([(ni, ki, None)])
+            add([(ni, ki, None)], ext=True)
             add([(ni, ki, None)], nested=True, opts=optsets[:2])
             add([(ni, ki, None)], preexist=True, opts=optsets[:2])
     # all ordered 2-entry listings over a reduced alphabet (same name twice included)
@@ -190,6 +191,7 @@ def gen_cases(tier):
     for k_sl in range(4, nk):
         for order in itertools.permutations([(0, k_sl, None), (0, 1, None), (4, 0, None)]):
             add(list(order), opts=optsets[:2] if quick else optsets)
+            add(list(order), opts=optsets[:2], ext=True)
             add(list(order), nested=True, opts=optsets[:1])
             add(list(order), preexist=True, opts=optsets[1:2])
         for order in itertools.permutations([(0, k_sl, None), (0, 0, None), (3, 1, None)]):
